@@ -5,11 +5,13 @@ package main
 import (
 	"bytes"
 	"fmt"
+	"hash/fnv"
 	"math"
 	"math/big"
 	"os"
 	"os/exec"
 	"path/filepath"
+	"reflect"
 	"regexp"
 	"slices"
 	"strconv"
@@ -105,6 +107,101 @@ func binaryValidate(name string, ids []int) (class string, msg string) {
 	}
 }
 
+// ---- the CLI's own validateTileMatrixSet on a set given as a file (verif hook /repo/verif_validate.go) ----
+
+var (
+	texelVerifBin string
+	hookDir       string
+	hookRuns      int
+)
+
+// buildTexelVerif builds the binary with -tags verif (as harness_gpkg does: a scratch copy of go.mod, so that
+// /repo's is never rewritten); the tag links verif_validate.go, whose init serves `texel verif-validate file ids`.
+func buildTexelVerif(c *hc.Ctx) error {
+	dir, err := os.MkdirTemp("", "verif_texel_hook_")
+	if err != nil {
+		return err
+	}
+	hookDir = dir
+	for _, f := range []string{"go.mod", "go.sum"} {
+		b, err := os.ReadFile(filepath.Join(c.Repo, f))
+		if err != nil {
+			return err
+		}
+		if err := os.WriteFile(filepath.Join(dir, f), b, 0o644); err != nil {
+			return err
+		}
+	}
+	out := filepath.Join(dir, "texel_verif")
+	cmd := exec.Command("go", "build", "-modfile="+filepath.Join(dir, "go.mod"), "-tags", "verif", "-o", out, ".")
+	cmd.Dir = c.Repo
+	cmd.Env = append(os.Environ(), "GOFLAGS=-mod=mod", "GOPROXY=off", "GOSUMDB=off", "GOTOOLCHAIN=local", "CGO_ENABLED=1")
+	if b, err := cmd.CombinedOutput(); err != nil {
+		return fmt.Errorf("go build -tags verif of the texel binary failed: %v\n%s", err, b)
+	}
+	texelVerifBin = out
+	return nil
+}
+
+func idsJSON(ids []int) string {
+	z := "["
+	for i, id := range ids {
+		if i > 0 {
+			z += ","
+		}
+		z += strconv.Itoa(id)
+	}
+	return z + "]"
+}
+
+// hookResult is what `texel verif-validate` said about a value.  The value travels as a document (tms20's
+// MarshalJSON), so what the binary validates is the value the document decodes to: `loaded` is that value (decoded
+// here by the same library), `faithful` says that its tile matrices are exactly those of the value written.
+type hookResult struct {
+	class    string // "accept" | "reject" | "panic" | "skip"
+	msg      string
+	skip     string // why skipped (class "skip")
+	loaded   *tms20.TileMatrixSet
+	faithful bool
+}
+
+func hookValidate(t *tms20.TileMatrixSet, ids []int) hookResult {
+	doc, kind, msg := encodeTMS(t)
+	if kind != "ok" {
+		return hookResult{class: "skip", skip: "value cannot be encoded (" + kind + ")", msg: msg}
+	}
+	r := decodeTMS(doc)
+	if r.Kind != "ok" {
+		return hookResult{class: "skip", skip: "document of the value does not load (" + r.Kind + ")", msg: r.Msg}
+	}
+	hookRuns++
+	file := filepath.Join(hookDir, fmt.Sprintf("set_%d.json", hookRuns))
+	if err := os.WriteFile(file, doc, 0o644); err != nil {
+		return hookResult{class: "skip", skip: "document cannot be written", msg: err.Error()}
+	}
+	defer os.Remove(file)
+	cmd := exec.Command(texelVerifBin, "verif-validate", file, idsJSON(ids))
+	var stdout, stderr bytes.Buffer
+	cmd.Stdout, cmd.Stderr = &stdout, &stderr
+	runErr := cmd.Run()
+	line := strings.TrimRight(stdout.String(), "\n")
+	res := hookResult{loaded: r.Value, faithful: reflect.DeepEqual(r.Value.TileMatrices, t.TileMatrices)}
+	switch {
+	case line == "accept":
+		res.class = "accept"
+	case strings.HasPrefix(line, "reject: "):
+		res.class, res.msg = "reject", trunc(strings.TrimPrefix(line, "reject: "), 300)
+	case strings.HasPrefix(line, "panic: "):
+		res.class, res.msg = "panic", trunc(line, 300)
+	case strings.HasPrefix(line, "load-error: "):
+		return hookResult{class: "skip", skip: "the binary cannot load the document", msg: trunc(line, 300)}
+	default:
+		// no verdict line: the process died (a fatal error / a panic outside the recover) or is not the hook binary
+		res.class, res.msg = "panic", trunc(fmt.Sprintf("no verdict line (%v): stdout %q stderr %q", runErr, stdout.String(), stderr.String()), 400)
+	}
+	return res
+}
+
 // ---- perturbations ---------------------------------------------------------------------------------
 
 type pert struct {
@@ -188,6 +285,20 @@ func pVmw(id int, n int) pert {
 func pID(id int, s string) pert {
 	return pert{fmt.Sprintf("PId %s %s", hc.CoqZ(int64(id)), coqStr(s)), fmt.Sprintf("id[%d] := %q", id, s),
 		func(t *tms20.TileMatrixSet) { modTM(t, id, func(m *tms20.TileMatrix) { m.ID = s }) }, "id"}
+}
+
+// pShift renumbers every tile matrix: key k and id string k become k+d (d = 1 on a set that starts at 0: "all ids
+// renumbered from 1" -- a perfect quadtree in every local condition, but without tile matrix 0).
+func pShift(d int) pert {
+	return pert{fmt.Sprintf("PShift %s", hc.CoqZ(int64(d))), fmt.Sprintf("every tile matrix k renumbered k%+d", d),
+		func(t *tms20.TileMatrixSet) {
+			n := make(map[int]tms20.TileMatrix, len(t.TileMatrices))
+			for k, m := range t.TileMatrices {
+				m.ID = strconv.Itoa(k + d)
+				n[k+d] = m
+			}
+			t.TileMatrices = n
+		}, ""}
 }
 
 // ---- the independent oracle: the quadtree conditions recomputed with exact arithmetic ------------------
@@ -299,18 +410,22 @@ type c14Base struct {
 func runC14(c *hc.Ctx) error {
 	vs := newViolations(c)
 	var buf bufferedCases
-	c.Sum.Rule = "tile matrix sets = the built-in documents and synthetic exact quadtrees (tile width 1/256/512, both corners, first id 0 or 2); unperturbed (all id lists incl. the real binary for the built-in sets) and with every single-field perturbation (matrix width/height, tile width/height, origin by 1 ulp / 1e-9 / 1 unit, corner, cell size at ratios {1, 1.98, 1.99 -/+ 1ulp, 1.9900001, 2 -/+ 1e-9, 2.0099999, 2.01 -/+ 1 ulp, 2.02, 3} to BOTH neighbours, zero and negative, deletion, variable widths incl. the empty non-nil slice, id strings) at the first, second, a random and the last level (thorough: every level), plus random pairs of perturbations; distinct = distinct (set, perturbations, ids); non-trivial = perturbed or accepted"
-	c.Sum.Oracle = "on the implementation (pointindex.IsQuadTree, DeviationStats, the texel binary; panics recovered): accepted => the quadtree conditions recomputed from the struct with exact rationals hold (ratio cases within 1e-12 of 1.99/2.01 make no claim); a perturbation breaking exactly one condition of an accepted set => rejected with an error; never a panic; for accepted unperturbed sets with a 1x1 root the pixel size reported by DeviationStats (int64 reso) equals cellSize(z)/16 within 1e-7 relative (built-in documents halve only to ~3e-8) resp. exactly to 1e-10 units (synthetic); the binary's verdict equals the library composite"
+	c.Sum.Rule = "tile matrix sets = the built-in documents and synthetic exact quadtrees (tile width 1/256/512, both corners, first id 0 or 2); unperturbed (all id lists incl. the real binary for the built-in sets) and with every single-field perturbation (matrix width/height, tile width/height, origin by 1 ulp / 1e-9 / 1 unit, corner, cell size at ratios {1, 1.98, 1.99 -/+ 1ulp, 1.9900001, 2 -/+ 1e-9, 2.0099999, 2.01 -/+ 1 ulp, 2.02, 3} to BOTH neighbours, zero and negative, deletion, variable widths incl. the empty non-nil slice, id strings) at the first, second, a random and the last level (thorough: every level), plus random pairs of perturbations, plus the sets without tile matrix 0 that keep every other condition (tile matrix 0 deleted; every id renumbered +1, +3, back to 0; requested ids [1], deepest, [1..5]; thorough: also first, all, the first five); the unperturbed synthetic sets, the sets without tile matrix 0 and a hashed 1-in-24 (thorough 1-in-6) sample of all other evaluations are written to a file (tms20 MarshalJSON) and validated by the CLI's own validateTileMatrixSet (`texel verif-validate`, build tag verif); distinct = distinct (set, perturbations, ids); non-trivial = perturbed or accepted"
+	c.Sum.Oracle = "on the implementation (pointindex.IsQuadTree, DeviationStats, the texel binary; panics recovered): accepted => the quadtree conditions recomputed from the struct with exact rationals hold (ratio cases within 1e-12 of 1.99/2.01 make no claim); a perturbation breaking exactly one condition of an accepted set => rejected with an error; never a panic; for accepted unperturbed sets with a 1x1 root the pixel size reported by DeviationStats (int64 reso) equals cellSize(z)/16 within 1e-7 relative (built-in documents halve only to ~3e-8) resp. exactly to 1e-10 units (synthetic); the binary's verdict equals the library composite; the verdict of validateTileMatrixSet on a set given as a file (verif hook) equals the library composite on the value that file decodes to -- in particular a DeviationStats error (no tile matrix 0) is a rejection -- and is never a panic (values that cannot be encoded or whose document does not load are skipped and counted)"
 	c.Sum.Partial = "float clause: the ratio condition is the binary64 test the code performs; its meaning for the exact quotient of the two float64 cell sizes is proved with a slack of 2^-50 (C14_ratio_exact: within [1.99 - 2^-50, 2.01 + 2^-50]); validate_total carries the level bound d + log2(tile width) + 4 < 64 (every built-in set satisfies it; a 60-level set does not: C14_validate_total_level_bound_needed)"
 	c.Sum.TrustedBase = []string{
 		"float64 division and comparison in IsQuadTree modelled bit-exactly through f64 (round to nearest even of the exact quotient of the two binary64 values)",
 		"uint(math.Log2(float64(tileWidth))) modelled as floor(log2) (exact for tile widths below 2^47); uint(-Inf) = 2^63 and 1<<n = 0 for n >= 64 as compiled for amd64",
-		"main.validateTileMatrixSet is in package main: its call order is tied by the generated gen_validate_calls and by running the built binary on the built-in sets; for perturbed values the harness calls IsQuadTree, slices.Max, DeviationStats in that order itself",
+		"main.validateTileMatrixSet is in package main: its call order is tied by the generated gen_validate_calls, by running the built binary on the built-in sets, and by running it on perturbed sets written to a file through the add-only hook /repo/verif_validate.go (build tag verif: load with tms20.LoadJSONTileMatrixSet, call validateTileMatrixSet, print the verdict); for the perturbed values that are not sampled for the hook the harness calls IsQuadTree, slices.Max, DeviationStats in that order itself",
 	}
 	if err := buildTexel(c); err != nil {
 		return err
 	}
 	defer os.Remove(texelBin)
+	if err := buildTexelVerif(c); err != nil {
+		return err
+	}
+	defer os.RemoveAll(hookDir)
 
 	names, err := builtinNames(c)
 	if err != nil {
@@ -345,8 +460,20 @@ func runC14(c *hc.Ctx) error {
 		bases = append(bases, c14Base{fmt.Sprintf("synthetic(levels=%d,tile=%d,corner=%q,first=%d)", s.levels, s.tw, s.corner, s.first), "(BLit " + doc.coq() + ")", *r.Value, false, true})
 	}
 
+	// which evaluations also go through `texel verif-validate` (one process start each): all that ask for it
+	// (hookAlways), and of the others those whose key hashes into 1 of hookDen
+	const (
+		hookNever = iota
+		hookSampled
+		hookAlways
+	)
+	hookDen := uint32(c.N(24, 6))
+	if c.Search {
+		hookDen = uint32(c.N(8, 3))
+	}
+	hookViolations := 0
 	seen := map[string]bool{}
-	run := func(b c14Base, ps []pert, ids []int, useBinary bool) {
+	runH := func(b c14Base, ps []pert, ids []int, useBinary bool, hook int) {
 		var pc, pd []string
 		for _, p := range ps {
 			pc = append(pc, p.coq)
@@ -417,6 +544,49 @@ func runC14(c *hc.Ctx) error {
 			}
 		}
 		bq, bv := qc, vc
+		viaHook := false
+		if hook == hookSampled {
+			h := fnv.New32a()
+			h.Write([]byte(key))
+			if h.Sum32()%hookDen != 0 {
+				hook = hookNever
+			}
+		}
+		if hook != hookNever && !useBinary {
+			// the CLI's own validateTileMatrixSet on this value, written to a file: its verdict must be that of the
+			// library composite on the value the document decodes to (the same value unless the round trip changes it)
+			hr := hookValidate(&t, ids)
+			if hr.class == "skip" {
+				c.Count("verif-validate: skipped, " + hr.skip)
+			} else {
+				c.Count("verif-validate: " + hr.class)
+				lc, lm := vc, vm
+				if !hr.faithful {
+					c.Count("verif-validate: the document decodes to other tile matrices than the value written (composite recomputed on the decoded value)")
+					lc, lm, _ = runValidate(*hr.loaded, ids)
+				}
+				hin := map[string]any{"set": b.name, "perturbations": pd, "ids": ids, "command": "texel (go build -tags verif) verif-validate <document of the perturbed set, tms20 MarshalJSON> '" + idsJSON(ids) + "'"}
+				if hr.class != lc || hr.class == "panic" {
+					hookViolations++
+					if hookViolations <= 3 {
+						if doc, kind, _ := encodeTMS(&t); kind == "ok" {
+							hin["document"] = string(doc)
+						}
+					}
+				}
+				switch {
+				case hr.class == "panic":
+					vs.add(hc.Violation{What: "texel panics while validating a tile matrix set given as a file (validateTileMatrixSet through the verif hook)", Input: hin, Observed: "texel verif-validate: " + hr.msg, Expected: "library composite: " + lc + " " + lm})
+				case hr.class == "accept" && lc != "accept":
+					vs.add(hc.Violation{What: "validateTileMatrixSet accepts a tile matrix set the library composite (IsQuadTree, ids non-empty and in the set, DeviationStats) rejects", Input: hin, Observed: "texel verif-validate: accept", Expected: "library composite: " + lc + " " + lm})
+				case hr.class != lc:
+					vs.add(hc.Violation{What: "validateTileMatrixSet's verdict differs from the library composite (IsQuadTree, ids non-empty and in the set, DeviationStats)", Input: hin, Observed: "texel verif-validate: " + hr.class + " " + hr.msg, Expected: "library composite: " + lc + " " + lm})
+				}
+				if hr.faithful {
+					bv, viaHook = hr.class, true
+				}
+			}
+		}
 		if useBinary {
 			bc, bm := binaryValidate(b.name, ids)
 			c.Count("binary: " + bc)
@@ -438,18 +608,21 @@ func runC14(c *hc.Ctx) error {
 			addCase = buf.addFirst
 		}
 		addCase(fmt.Sprintf("MkCase %s %s %s %s %s", b.coq, hc.CoqList(pc), hc.CoqList(idl), cls[bq], cls[bv]),
-			map[string]any{"set": b.name, "perturbations": pd, "ids": ids, "IsQuadTree": qc + " " + qm, "validate": bv + " " + vm, "binary": useBinary})
+			map[string]any{"set": b.name, "perturbations": pd, "ids": ids, "IsQuadTree": qc + " " + qm, "validate": bv + " " + vm, "binary": useBinary, "verif-validate": viaHook})
 		if len(ps) == 1 && len(c.Sum.Samples) < 6 && c.Rng.Intn(300) == 0 {
 			c.Sample(map[string]any{"set": b.name, "perturbation": pd[0], "IsQuadTree": qc, "message": qm})
 		}
 	}
 
-	// 1. unperturbed, several id lists; the built-in ones also through the real binary
+	run := func(b c14Base, ps []pert, ids []int, useBinary bool) { runH(b, ps, ids, useBinary, hookSampled) }
+
+	// 1. unperturbed, several id lists; the built-in ones also through the real binary, all of them (the synthetic
+	// ones cannot be named on the command line) through `texel verif-validate`
 	for _, b := range bases {
 		ids := sortedIDs(&b.set)
 		lists := [][]int{{ids[0]}, {ids[len(ids)-1]}, ids, {ids[len(ids)/2], ids[0]}}
 		for _, l := range lists {
-			run(b, nil, l, false)
+			runH(b, nil, l, false, hookAlways)
 		}
 		if b.builtin {
 			run(b, nil, []int{ids[len(ids)-1]}, true)
@@ -560,10 +733,41 @@ func runC14(c *hc.Ctx) error {
 			run(b, []pert{pTileWidth(id, 255), pTileHeight(id, 255)}, idsAll, false)
 		}
 		// deleting the root (and the first two) leaves a quadtree without id 0
-		run(b, []pert{pDelete(ids[0])}, []int{ids[len(ids)-1]}, false)
+		runH(b, []pert{pDelete(ids[0])}, []int{ids[len(ids)-1]}, false, hookAlways)
 		if len(ids) > 2 {
-			run(b, []pert{pDelete(ids[0]), pDelete(ids[1])}, []int{ids[len(ids)-1]}, false)
-			run(b, []pert{pDelete(ids[len(ids)-1]), pDelete(ids[len(ids)-2])}, []int{ids[0]}, false)
+			runH(b, []pert{pDelete(ids[0]), pDelete(ids[1])}, []int{ids[len(ids)-1]}, false, hookAlways)
+			runH(b, []pert{pDelete(ids[len(ids)-1]), pDelete(ids[len(ids)-2])}, []int{ids[0]}, false, hookAlways)
+		}
+		// sets without tile matrix 0 that satisfy every other quadtree condition: tile matrix 0 deleted; all ids
+		// renumbered from 1 (and from 3; and back to 0 for a set that starts higher).  Only DeviationStats (through
+		// MatrixBoundingBox(0)) says that tile matrix 0 is needed, so validateTileMatrixSet must pass its error on:
+		// always through the CLI's own function.
+		last := ids[len(ids)-1]
+		for _, ps := range [][]pert{{pDelete(0)}, {pShift(1)}, {pShift(3)}, {pShift(-ids[0])}, {pShift(1), pDelete(last + 1)}} {
+			if ids[0] == 0 && len(ps) == 1 && ps[0].coq == pShift(0).coq {
+				continue
+			}
+			t := cloneSet(b.set)
+			for _, p := range ps {
+				p.apply(&t)
+			}
+			pids := sortedIDs(&t)
+			if len(pids) == 0 {
+				continue
+			}
+			lists := [][]int{{1}, {pids[len(pids)-1]}, {1, 2, 3, 4, 5}}
+			if ps[0].coq == pShift(3).coq || len(ps) > 1 {
+				lists = [][]int{{pids[0]}, {pids[len(pids)-1]}}
+			}
+			if !c.Quick() {
+				lists = append(lists, []int{1}, []int{pids[0]}, []int{last}, []int{1, 2, 3, 4, 5}, pids)
+				if len(pids) > 5 {
+					lists = append(lists, pids[:5])
+				}
+			}
+			for _, l := range lists {
+				runH(b, ps, l, false, hookAlways)
+			}
 		}
 		// whole-set consistent changes (still a quadtree): every tile 512 wide; every corner bottomLeft
 		var all512, allBL []pert
